@@ -890,6 +890,9 @@ extern void lerr_fatal(const char *, ...)
 /* Spit out a "#line" statement. */
 extern void line_directive_out(FILE *, char *, int);
 
+/* The text of a "#line" statement for a line of the input file. */
+extern void line_directive_str(char *, size_t, const char *, int);
+
 /* Mark the current position in the action array as the end of the section 1
  * user defs.
  */
